@@ -1588,6 +1588,20 @@ class Engine:
         return [Out("ok", st)]
 
     def s_ImportFrom(self, node, st):
+        # a function-level import binds local names (module-level imports are read from the module table)
+        if node.module and len(self.frames) >= 1 and self.frame.node is not None:
+            s = st.copy()
+            for a in node.names:
+                name = a.asname or a.name
+                if node.level == 0 and node.module.startswith("clikit"):
+                    try:
+                        s.env[name] = self.import_value(node.module, a.name, st)
+                        continue
+                    except Exception:
+                        pass
+                if node.level == 0:
+                    s.env[name] = V(FN, ("ext", node.module, a.name))
+            return [Out("ok", s)]
         return [Out("ok", st)]
 
     def s_Return(self, node, st):
